@@ -68,6 +68,24 @@ theorem C03_parse_error_effect (cfg : Cfg) (s0 : DState) :
   simp [applyDecoded, pushError, DState.takePayloadErr]
   unfold DState.onSlot; split <;> rfl
 
+/-- an oversized, never-ending request head (`ParseError::TooLarge`) has the same effect with a
+431: `READ_DISCONNECT`, exactly one error response queued, decode loop left — together with
+`C03_no_decode_after_read_disconnect` the head is never parsed again, so no second 431 -/
+theorem C03_too_large_effect (cfg : Cfg) (s0 : DState) :
+    (applyDecoded cfg s0 .errTooLarge).1.flags.readDisc = true ∧
+    (applyDecoded cfg s0 .errTooLarge).1.inDecode = false ∧
+    (applyDecoded cfg s0 .errTooLarge).1.payload = none ∧
+    (applyDecoded cfg s0 .errTooLarge).1.messages = s0.messages ++ [.error 431] := by
+  simp [applyDecoded, pushError, DState.takePayloadErr]
+  unfold DState.onSlot; split <;> rfl
+
+/-- a head at the buffer cap is rejected as soon as the decode loop sees it -/
+theorem C03_huge_head_rejected (rest : List RUnit) :
+    (decodeUnits none (.huge :: rest)).1 = .errTooLarge ∧
+    (decodeUnits none (.hugeA :: .hugeB :: rest)).1 = .errTooLarge ∧
+    (decodeUnits none [.hugeA]).1 = .needMore := by
+  simp [decodeUnits, decodeHead]
+
 /-! ## close means close -/
 
 /-- **C03_silent_once_closing**: once `SHUTDOWN` or `LINGER` is set and the poll that decided it
